@@ -1,5 +1,6 @@
 import JediModel.Proto
 import JediModel.Model.Scopes
+import JediModel.Model.CompCtx
 import JediModel.Props.C03
 open Lean Proto JediModel.Scopes
 
@@ -29,6 +30,20 @@ def handle (j : Json) : Json :=
       ("goto", jarr ((List.range n).map fun i => jarr ((goto p i).map jnat))),
       ("var", jarr ((List.range n).map fun i => jnat (varOf p i))),
       ("covered", jarr ((List.range n).map fun i => jbool (JediModel.Props.C03.CoveredUse p i)))]
+  | "compctx" =>
+    let pos := fun (k : String) => match arr j k with
+      | [l, c] => (asNat l, asNat c)
+      | _ => (0, 0)
+    let c : JediModel.CompCtx.CompFor :=
+      { iterStart := pos "iterStart", iterEnd := pos "iterEnd", lastStart := pos "lastStart" }
+    jobj [("ctx", jarr ((arr j "nodes").map fun n =>
+      match asArr n with
+      | [l, cc] =>
+        match JediModel.Props.C03.srcNodeContext c (asNat l, asNat cc) with
+        | some .parent => jstr "parent"
+        | some .comp => jstr "comp"
+        | none => jstr "unknown"
+      | _ => jstr "bad-node"))]
   | op => jobj [("error", jstr ("unknown op " ++ op))]
 
 def main : IO Unit := Proto.run handle
